@@ -118,15 +118,16 @@ package elasticquota
 //@   ensures #nonneg: err == nil ==> (forall n v1.ResourceName :: val(allChildQuotaSum, n) >= 0)
 //@   ensures #bound: err == nil && parentName != extension.RootQuotaName ==> (forall c string, n v1.ResourceName :: has(qt.quotaHierarchyInfo[parentName], c) && c != skipQuota ==> val(allChildQuotaSum, n) >= val(qt.quotaInfoMap[c].CalculateInfo.Min, n) && (has(qt.quotaInfoMap[c].CalculateInfo.Min, n) ==> has(allChildQuotaSum, n)))
 //@   ensures #none: err == nil && (forall c string :: has(qt.quotaHierarchyInfo[parentName], c) ==> c == skipQuota) ==> (forall n v1.ResourceName :: val(allChildQuotaSum, n) == 0)
-//@   ensures #one: err == nil && parentName != extension.RootQuotaName ==> (forall c0 string :: has(qt.quotaHierarchyInfo[parentName], c0) && c0 != skipQuota && (forall c string :: has(qt.quotaHierarchyInfo[parentName], c) && c != skipQuota ==> c == c0) ==> (forall n v1.ResourceName :: val(allChildQuotaSum, n) == val(qt.quotaInfoMap[c0].CalculateInfo.Min, n)))
+//@   ensures #one: err == nil && parentName != extension.RootQuotaName ==> (forall c0 string :: {has(qt.quotaHierarchyInfo[parentName], c0)} has(qt.quotaHierarchyInfo[parentName], c0) && c0 != skipQuota && (forall c string :: {has(qt.quotaHierarchyInfo[parentName], c)} has(qt.quotaHierarchyInfo[parentName], c) && c != skipQuota ==> c == c0) ==> (forall n v1.ResourceName :: val(allChildQuotaSum, n) == val(qt.quotaInfoMap[c0].CalculateInfo.Min, n)))
 //@   ensures #zero: err == nil && (forall c string, n v1.ResourceName :: has(qt.quotaHierarchyInfo[parentName], c) && c != skipQuota ==> val(qt.quotaInfoMap[c].CalculateInfo.Min, n) == 0) ==> (forall n v1.ResourceName :: val(allChildQuotaSum, n) == 0)
 //@   modifies nothing
 //@   loop 1 invariant allChildQuotaSum != nil && fresh(allChildQuotaSum) && err == nil
 //@   loop 1 invariant forall c string :: $seen[c] && c != skipQuota ==> has(qt.quotaInfoMap, c)
 //@   loop 1 invariant forall n v1.ResourceName :: val(allChildQuotaSum, n) >= 0
 //@   loop 1 invariant forall c string, n v1.ResourceName :: $seen[c] && c != skipQuota ==> val(allChildQuotaSum, n) >= val(qt.quotaInfoMap[c].CalculateInfo.Min, n) && (has(qt.quotaInfoMap[c].CalculateInfo.Min, n) ==> has(allChildQuotaSum, n))
-//@   loop 1 invariant (forall c string :: $seen[c] ==> c == skipQuota) ==> (forall n v1.ResourceName :: val(allChildQuotaSum, n) == 0)
-//@   loop 1 invariant forall c0 string :: $seen[c0] && c0 != skipQuota && (forall c string :: $seen[c] && c != skipQuota ==> c == c0) ==> (forall n v1.ResourceName :: val(allChildQuotaSum, n) == val(qt.quotaInfoMap[c0].CalculateInfo.Min, n))
+//@   loop 1 invariant forall c string :: {$seen[c]} $seen[c] ==> has(qt.quotaHierarchyInfo[parentName], c)
+//@   loop 1 invariant (forall n v1.ResourceName :: {val(allChildQuotaSum, n)} val(allChildQuotaSum, n) == 0) || (exists c string :: $seen[c] && c != skipQuota)
+//@   loop 1 invariant forall c0 string :: {$seen[c0]} $seen[c0] && c0 != skipQuota ==> (forall n v1.ResourceName :: {val(allChildQuotaSum, n)} val(allChildQuotaSum, n) == val(qt.quotaInfoMap[c0].CalculateInfo.Min, n)) || (exists c1 string :: $seen[c1] && c1 != skipQuota && c1 != c0)
 //@   loop 1 invariant (forall c string, n v1.ResourceName :: has(children, c) && c != skipQuota ==> val(qt.quotaInfoMap[c].CalculateInfo.Min, n) == 0) ==> (forall n v1.ResourceName :: val(allChildQuotaSum, n) == 0)
 
 // ---------- checkMinQuotaValidate: children's mins sum to at most the parent's min ----------
